@@ -1,3 +1,8 @@
+pub mod chain;
 pub mod engine;
+pub mod fuzzing;
 pub mod model;
 pub mod props;
+
+#[global_allocator]
+static GLOBAL: chain::WatchAlloc = chain::WatchAlloc;
